@@ -3,3 +3,4 @@ import MirosModel.Drive.Queue
 import MirosModel.Drive.Conc
 import MirosModel.Drive.Fabric
 import MirosModel.Drive.AO
+import MirosModel.Drive.PubSub
